@@ -223,9 +223,9 @@ impl Variant for Simple {
     }
     fn marker_with_id(id: u64) -> Self::M {
         // the fields are private: go through serde (a one element tuple struct)
-        let m: SimpleMarker<SLTag> = serde_json::from_str(&format!("[{}]", id))
-            .or_else(|_| serde_json::from_str(&format!("{}", id)))
-            .expect("SimpleMarker from json");
+        // (checked: a marker obtained from `mark` serialises as `[id]` / RON `(id)`)
+        let m: SimpleMarker<SLTag> =
+            serde_json::from_str(&format!("[{}]", id)).expect("SimpleMarker from json");
         assert_eq!(m.id(), id);
         m
     }
